@@ -219,7 +219,10 @@ def run(c, a):
         exhaustive.append("rcv_n1: %d behaviours with a silent peer" % len(got))
         if c.tier == "quick":
             want = [["Silent", "Good", "Cancel"], ["Good", "PeerClose", "Silent", "Good", "Cancel"]]
-            got = [x for x in got if [y["a"] for y in x] in want]
+            # ... plus the one where Cancel lands right after a silent connect, three times (the race with Accept: finding
+            # C10-accepted-conn-dropped-at-cancel, fixed - a regression shows up in some of the repetitions)
+            race = [x for x in got if [y["a"] for y in x] == ["Good", "PeerClose", "Silent", "Cancel"]]
+            got = [x for x in got if [y["a"] for y in x] in want] + race * 3
         else:
             # behaviours where Cancel directly follows a Silent connect first: there the cancellation races with
             # receivingConnProvider.NewConnection's Accept (finding C10-accepted-conn-dropped-at-cancel, fixed)
